@@ -1,5 +1,9 @@
 import LoguruModel.Markup.Lemmas
+import LoguruModel.Markup.TreeLemmas
+import LoguruModel.Markup.SgrStringLemmas
 import LoguruModel.Generated.MarkupEmit
+import LoguruModel.Generated.MarkupShare
+import LoguruModel.Markup.HandlersLemmas
 /-
 C06 – property theorems (only the theorems, the small lemmas they need, and non-vacuity examples).
 The tables `Markup.Gen.*` are regenerated from `/repo/loguru/_colorizer.py` on every run.
@@ -186,6 +190,94 @@ theorem close_restores (lvl : List Str) (p p' : P) (tag : Str) (hi : Inv lvl p)
       · exact Or.inr hc
     · cases h
   · cases h
+
+/-! ## Tree equivalence: the stack machine of `AnsiParser` ≡ the recursive-descent reference reader -/
+
+/-- for EVERY text and every level colour: the reference reader `tree` (recursive descent over well-nested tags,
+no token list, no stack, no re-emission) accepts the text exactly when `AnsiParser.feed` + strict `done` do, and
+then the SGR reading of the parser's tokens – every visible character with the codes in force since the last
+reset – is the reference's list: every character with the codes of the tags ENCLOSING it, outermost first
+(`<level>` = the level's codes, the rest through `_get_ansicode`).  When the reference fails (unknown tag,
+closing tag that does not match the innermost open tag or has nothing to close, text ending inside a tag) the
+parser raises ValueError. -/
+theorem tree_equivalence (lvl : List Str) (text : Str) :
+    match tree lvl text with
+    | .ok cs => ∃ toks, parse text = .ok toks ∧ sgr lvl [] toks = cs
+    | .error _ => parse text = .error .valueError := tree_machine lvl text
+
+/-- unknown, unbalanced and mis-nested tags are exactly the ValueError cases -/
+theorem parse_ok_iff_well_nested_known (lvl : List Str) (text : Str) :
+    (∃ toks, parse text = .ok toks) ↔ (∃ cs, tree lvl text = .ok cs) := by
+  have h := tree_equivalence lvl text
+  constructor
+  · rintro ⟨toks, ht⟩
+    cases hr : tree lvl text with
+    | ok cs => exact ⟨cs, rfl⟩
+    | error e => rw [hr] at h; simp only at h; rw [h] at ht; cases ht
+  · rintro ⟨cs, hc⟩
+    rw [hc] at h
+    obtain ⟨toks, ht, _⟩ := h
+    exact ⟨toks, ht⟩
+
+/-- each printed character carries exactly the styles of the markup tags enclosing it -/
+theorem char_styles_eq_enclosing_tags (lvl : List Str) (text : Str) (toks : List Tok) (h : parse text = .ok toks) :
+    tree lvl text = .ok (sgr lvl [] toks) := by
+  have ht := tree_equivalence lvl text
+  cases hr : tree lvl text with
+  | ok cs =>
+    rw [hr] at ht
+    obtain ⟨toks', h', hs⟩ := ht
+    rw [h] at h'; injection h' with h'; subst h'; rw [hs]
+  | error e => rw [hr] at ht; simp only at ht; rw [ht] at h; cases h
+
+/-- the same from any state of the machine (formats are fed chunk by chunk, messages piece by piece): for every
+state satisfying the invariant and every item list the reference reader, started with the codes of the current
+tag stack in force, describes what the machine does -/
+theorem tree_equivalence_from_any_state (lvl : List Str) (items : List Item) (p : P) (hi : Inv lvl p) :
+    Sim lvl p items (descend lvl (items.length + 1) (codes lvl p.colorTokens) items) :=
+  descend_sim lvl (items.length + 1) items p hi (by omega)
+
+example : tree ["L".toList] "<b><i>x</i>y</b>z\\\\<lvl>w</>".toList =
+    .ok [('x', ["\x1b[1m".toList, "\x1b[3m".toList]), ('y', ["\x1b[1m".toList]), ('z', []), ('\\', []),
+         ('w', ["L".toList])] := by decide +kernel
+example : tree [] "<b><i>x</b></i>".toList = .error .bad := by decide +kernel
+example : tree [] "<b>x".toList = .error .unclosed := by decide +kernel
+example : tree [] "x</b>".toList = .error .bad := by decide +kernel
+example : tree [] "<foo>x</foo>".toList = .error .bad := by decide +kernel
+example : tree [] "\\<foo>x".toList = .ok [('<', []), ('f', []), ('o', []), ('o', []), ('>', []), ('x', [])] := by
+  decide +kernel
+
+/-- no sequence `_get_ansicode` can return – table entry, 8-bit, hex or r,g,b form, for ANY tag text – is a reset
+(`ESC[0m` / `ESC[m`): an opening tag can never switch the enclosing styles off -/
+theorem ansi_never_reset (tag a : Str) (h : getAnsiCode tag = some a) : NotReset a := getAnsiCode_notReset tag a h
+
+/-- THE PRINTED STRING: for every ESC-free text that parses and every level colour made of non-reset SGR sequences
+`lv`, reading the colourised STRING the way a terminal does (`sgrStr`: `ESC[…m` sequences add to the styles in
+force, `ESC[0m` clears them, everything else is a visible character) gives every printed character exactly the
+codes of the tags enclosing it in the reference reading – the property's second clause about the handler's
+output text itself, not about tokens -/
+theorem printed_string_styles_eq_enclosing_tags (lv : List Str) (text : Str) (toks : List Tok) (out : Str)
+    (hl : ∀ a ∈ lv, IsSgr a ∧ NotReset a) (ht : NoEsc text)
+    (hp : parse text = .ok toks) (hc : colorize toks (some lv.flatten) = .ok out) :
+    tree lv text = .ok (sgrStr out) := by
+  have htree := char_styles_eq_enclosing_tags lv text toks hp
+  unfold parse at hp
+  split at hp
+  · rename_i p hf
+    have hclean := clean_feed {} p text false clean_init ht hf
+    have hnr := nr_feed {} p text false nr_init hf
+    unfold done at hp
+    split at hp
+    · cases hp
+    · injection hp with hp; subst hp
+      rw [htree]
+      simp only [sgrStr]
+      rw [sgrStr_colorize lv hl p.tokens [] out hclean.toks hnr.toks hc]
+  · cases hp
+
+example : (parse "<b><lvl>x</>y</b>z".toList).map (fun t => (colorize t (some ["\x1b[31m".toList].flatten)).map sgrStr) =
+    .ok (.ok [('x', ["\x1b[1m".toList, "\x1b[31m".toList]), ('y', ["\x1b[1m".toList]), ('z', [])]) := by
+  decide +kernel
 
 /-! ## Arguments and values are never interpreted -/
 
@@ -491,6 +583,36 @@ theorem drop_rule_is_per_handler :
     GenEmit.dropRuleTopLevel = true ∧ GenEmit.dropRuleAfterUserCode = true ∧
     GenEmit.emitStrippedCompares = 1 ∧ GenEmit.logStrippedCompares = 0 := by decide
 
+/-! ## One record dict shared by all the handlers of a call -/
+
+/-- for EVERY chain of handlers on one logging call with `opt(colors=True)`, EVERY patcher and EVERY rewriting of
+`record["message"]` by the handlers' own user code (filters, callable formats – each runs before its handler
+looks at the record, and what it leaves is what the next handler finds): each colourising handler's output with
+the SGR sequences removed is what a non-colourising handler with the same format at the same place of the chain
+prints.  Whether the handler still prints the coloured message or the record's (rewritten) text is decided by the
+comparison `colored_message.stripped != record["message"]` it makes itself (`drop_rule_is_per_handler`).
+(Guard as in `handler_visible_text_equal_partial`: `{message}` fields without format spec – F10; user code does
+not put ESC into the message.) -/
+theorem shared_record_visible_text_equal (lvl : Str) (mt : List Tok) (patch : Str → Str) (hs : List EH)
+    (hl : IsSgrSeq lvl) (hmt : ∀ t ∈ mt, TokClean t) (hpatch : NoEsc (patch (strip mt))) (hok : ∀ h ∈ hs, EHOK h)
+    (i : Nat) (h : EH) (outC outP : Str) (hi : hs[i]? = some h) (hc : h.colorize = true)
+    (hC : (logColored true lvl mt patch hs)[i]? = some (.ok outC))
+    (hP : (plainAll (patch (strip mt)) hs)[i]? = some (.ok outP)) : unansi outC = outP :=
+  emitAll_visible lvl mt _ hl hmt hs _ hpatch hok i h outC outP hi hc hC hP
+
+/-- REFUTING WITNESS for the shape "the re-parse decision is taken once per call" (in `_log`, or cached on the
+first handler): an earlier handler's filter redacts the message, the colourising handler behind it still prints
+the coloured original – `hunter2` – while a plain handler at the same place prints `***`; decided per handler
+(the code) both print `***` -/
+theorem drop_decided_once_witness :
+    let mt : List Tok := [.ansi "\x1b[4m".toList, .text "hunter2".toList, .closing]
+    let fmt : List FTok := [.fld ⟨"message".toList, none, []⟩]
+    let redact : EH := { rewrite := fun _ => "***".toList, ftoks := fmt, msgs := [[]], colorize := false, vals := [] }
+    let col : EH := { rewrite := fun s => s, ftoks := fmt, msgs := [[]], colorize := true, vals := [] }
+    logColored false [] mt (fun s => s) [redact, col] = [.ok "***".toList, .ok "\x1b[4mhunter2\x1b[0m".toList] ∧
+    logColored true [] mt (fun s => s) [redact, col] = [.ok "***".toList, .ok "***".toList] ∧
+    plainAll (strip mt) [redact, col] = [.ok "***".toList, .ok "***".toList] := by decide +kernel
+
 /-! ## Levels declared at run time, with or without a colour -/
 
 /-- every level of the core has its ANSI prefix and its pre-coloured format, both for its CURRENT colour -/
@@ -555,6 +677,155 @@ example : (declareAll false [.level, .text "x".toList] {}
     [⟨"N".toList, none⟩, ⟨"N".toList, some "<red>".toList⟩, ⟨"N".toList, none⟩, ⟨"M".toList, some [] ⟩]).map
     (fun c => (find? "N".toList c.cache.pre, find? "M".toList c.cache.pre)) =
     .ok (some (.ok "\x1b[31mx".toList), some (.ok "x".toList)) := by decide +kernel
+
+/-! ## The escape arithmetic of `feed`, regenerated -/
+
+/-- the three expressions of `AnsiParser.feed` that decide what a backslash run does (regenerated from the source
+as `Int` kernels) are the ones the model uses: `n // 2` backslashes are kept, the tag is literal iff `n % 2 == 1`,
+a TEXT token for the kept backslashes is emitted iff `n > 0` -/
+theorem escape_kernels_are_modelled (n : Nat) :
+    GenShare.escKeep n = ((n / 2 : Nat) : Int) ∧ GenShare.escLiteral n = (n % 2 == 1) ∧
+    GenShare.escEmits n = decide (n > 0) := by
+  refine ⟨?_, ?_, ?_⟩
+  · simp [GenShare.escKeep]
+  · simp only [GenShare.escLiteral]
+    have : ((n : Int) % 2 = 1) ↔ (n % 2 = 1) := by omega
+    rw [Bool.eq_iff_iff]; simp only [beq_iff_eq]; exact this
+  · simp [GenShare.escEmits]
+
+/-- hence `feedSeg` IS the code's rule: stated through the regenerated kernels, for every state and every match -/
+theorem feed_escape_rule_regenerated (p : P) (s : Seg) :
+    feedSeg p s =
+      if GenShare.escLiteral s.nb then
+        .ok { p with tokens := p.tokens ++ [.text s.pre, .text (bs (GenShare.escKeep s.nb).toNat ++ ('<' :: s.inner ++ ['>']))] }
+      else
+        feedTag { p with tokens := p.tokens ++ .text s.pre ::
+          (if GenShare.escEmits s.nb then [.text (bs (GenShare.escKeep s.nb).toNat)] else []) } s.inner := by
+  obtain ⟨h1, h2, h3⟩ := escape_kernels_are_modelled s.nb
+  rw [h1, h2, h3]
+  simp only [feedSeg, Int.toNat_natCast, decide_eq_true_eq]
+
+/-! ## Several handlers, one level table -/
+
+/-- the flags under which `Handler.update_format` skips, under which `Handler.__init__` pre-colours the format for
+every level of the table, the one store `update_format` performs, and the sharing of the table
+(`Logger.add` passes `self._core.levels_ansi_codes` itself, `__init__` keeps that object) – regenerated from
+`_handler.py` / `_logger.py`, as Boolean functions of (colorize, dynamic) and normalised source -/
+theorem handler_colour_shapes :
+    (∀ c d, GenShare.updateSkips c d = (!c || d)) ∧ (∀ c d, GenShare.initUpdates c d = (c && !d)) ∧
+    GenShare.initUpdateCalls = 1 ∧
+    GenShare.updateStores =
+      "self._precolorized_formats[level_id] = self._formatter.colorize(self._levels_ansi_codes[level_id])".toList ∧
+    GenShare.handlerKeepsTableRef = true ∧ GenShare.addPassesTable = "self._core.levels_ansi_codes".toList := by
+  decide
+
+/-- the model's handler follows exactly these regenerated guards -/
+theorem handler_model_uses_regenerated_guards (ansi : List (Str × Str)) (h : H) (n : Str) (toks : List Tok) (c d : Bool) :
+    h.updateFormat ansi n =
+      (if GenShare.updateSkips h.colorize h.dynamic then h else
+        match find? n ansi with
+        | some a => { h with pre := assoc n (colorize h.toks (some a)) h.pre }
+        | none => h) ∧
+    H.init ansi toks c d =
+      (if GenShare.initUpdates c d then
+        (ansi.map (·.1)).foldl (fun h n => h.updateFormat ansi n) { toks := toks, colorize := c, dynamic := d }
+       else { toks := toks, colorize := c, dynamic := d }) := by
+  constructor
+  · rfl
+  · cases c <;> cases d <;> rfl
+
+/-- what a `pickle` / `copy.deepcopy` round trip of a logger keeps, computed from the REGENERATED shapes of
+`Core.__getstate__` and `Handler.__getstate__`: both are shallow copies of `__dict__` in which neither the level
+table, nor the handlers, nor the handler's reference to the table is assigned anything – so core and handlers of
+the copy still reach ONE table object (object identity inside one pickle / one deepcopy memo is CPython's) -/
+def copyKeepsSharing : Bool :=
+  GenShare.coreStateIsDictCopy && GenShare.handlerStateIsDictCopy &&
+  !GenShare.coreStateDropped.contains "levels_ansi_codes".toList &&
+  !GenShare.coreStateDropped.contains "handlers".toList &&
+  !GenShare.handlerStateDropped.contains "_levels_ansi_codes".toList &&
+  !GenShare.handlerStateDropped.contains "_precolorized_formats".toList
+
+/-- a history as the API produces it: every copy is what the code's `__getstate__` makes it -/
+def AsCoded (ops : List MOp) : Prop := ∀ op ∈ ops, ∀ k, op = MOp.copy k → k = copyKeepsSharing
+
+/-- after ANY history of `add` (static or callable format, colourising or not), `level(name, color=…)` (new level
+or re-colouring), `remove`, and COPIES of the logger (`copy.deepcopy`, `pickle` round trip; the history continues
+on the copy) – starting from any level table – EVERY handler present formats a record of any level of the table
+with that level's CURRENT colour: a static colourising handler finds `_precolorized_formats[name]` (never
+`KeyError`, never a stale colour – also for handlers added after the level was declared or re-coloured, for levels
+declared after the handler was added, and for handlers inherited by a copy), a callable-format handler colourises
+with the table's current prefix, a non-colourising handler uses the stripped format.
+The proof needs `copyKeepsSharing = true`, i.e. the regenerated `__getstate__` shapes. -/
+theorem handlers_follow_shared_level_table (ansi0 : List (Str × Str)) (ops : List MOp) (c : MCore)
+    (hcoded : AsCoded ops) (h : mrun { ansi := ansi0, handlers := [] } ops = .ok c) :
+    ∀ ih ∈ c.handlers, ∀ name a, find? name c.ansi = some a →
+      ih.2.emitFormat (ih.2.table c.ansi) name =
+        if ih.2.colorize then colorize ih.2.toks (some a) else .ok (strip ih.2.toks) := by
+  have hkeep : copyKeepsSharing = true := by decide
+  have hsh : ∀ op ∈ ops, op.sharing := by
+    intro op hm
+    cases op with
+    | copy k => exact (hcoded _ hm k rfl).trans hkeep
+    | add _ _ _ _ => trivial
+    | level _ _ => trivial
+    | remove _ => trivial
+  have hok : CoreOK c := mrun_ok _ c ops hsh (by intro ih hm; cases hm) h
+  intro ih hm name a ha
+  obtain ⟨hown, hh⟩ := hok ih hm
+  have htab : ih.2.table c.ansi = c.ansi := by simp only [H.table, hown]; rfl
+  rw [htab]
+  unfold H.emitFormat
+  cases hc : ih.2.colorize with
+  | false => simp
+  | true =>
+    cases hd : ih.2.dynamic with
+    | true => simp [ha]
+    | false =>
+      have := hh ⟨hc, hd⟩ name a ha
+      simp [this]
+
+/-- REFUTING WITNESS for copies that break the sharing (`Core.__getstate__` handing out `dict(...)` copies of the
+level tables, `Handler.__getstate__` copying its reference, …): the handler inherited by the copy keeps the old
+colour after `level("INFO", color="<red>")` on the copy; with the sharing kept it serves the new one -/
+theorem detached_copy_witness :
+    let run := fun keeps => (mrun { ansi := [("INFO".toList, "\x1b[1m".toList)], handlers := [] }
+      [.add 0 [.level, .text "x".toList] true false, .copy keeps, .level "INFO".toList "<red>".toList]).map
+      (fun c => c.handlers.map (fun ih => ih.2.emitFormat (ih.2.table c.ansi) "INFO".toList))
+    run false = .ok [.ok "\x1b[1mx".toList] ∧ run true = .ok [.ok "\x1b[31mx".toList] := by decide +kernel
+
+/-- REFUTING WITNESS for the shape "the handler works on its OWN COPY of the level table" (a `dict(...)` in
+`add`/`__init__`, or a pickled state that separates the two): after a re-colouring the handler's `update_format`
+reads the stale copy and keeps serving the old colour – with the shared table it serves the new one -/
+theorem detached_table_witness :
+    let old : List (Str × Str) := [("INFO".toList, "\x1b[1m".toList)]
+    let h := H.init old [.level, .text "x".toList] true false
+    (h.updateFormat old "INFO".toList).emitFormat (assoc "INFO".toList "\x1b[31m".toList old) "INFO".toList =
+      .ok "\x1b[1mx".toList ∧
+    (h.updateFormat (assoc "INFO".toList "\x1b[31m".toList old) "INFO".toList).emitFormat
+      (assoc "INFO".toList "\x1b[31m".toList old) "INFO".toList = .ok "\x1b[31mx".toList := by decide +kernel
+
+/-- what survives `pickle` / `copy.deepcopy` of a logger: `Core.__getstate__` and `Handler.__getstate__` are shallow
+copies of `__dict__` that overwrite only locks, thread-locals, the queue machinery and the memo – never the level
+tables, the handlers, the per-level cache or the flags – so the copy's handlers and its core still reach ONE table
+(object identity inside one pickle is CPython's), and `__setstate__` gives every callable-format handler a FRESH
+memo (regenerated from `_logger.py` / `_handler.py`) -/
+theorem pickled_state_keeps_colour_tables :
+    GenShare.coreStateIsDictCopy = true ∧ GenShare.handlerStateIsDictCopy = true ∧
+    (∀ k ∈ ["levels_ansi_codes".toList, "levels".toList, "levels_lookup".toList, "handlers".toList],
+      k ∉ GenShare.coreStateDropped) ∧
+    (∀ k ∈ ["_levels_ansi_codes".toList, "_precolorized_formats".toList, "_decolorized_format".toList,
+            "_formatter".toList, "_colorize".toList, "_is_formatter_dynamic".toList],
+      k ∉ GenShare.handlerStateDropped) ∧
+    "_memoize_dynamic_format".toList ∈ GenShare.handlerStateDropped ∧
+    GenShare.setstateFreshMemo = ["prepare_colored_format".toList, "prepare_stripped_format".toList] := by
+  decide
+
+example : (mrun { ansi := [("INFO".toList, "\x1b[1m".toList)], handlers := [] }
+    [.add 0 [.level, .text "x".toList] true false, .level "NEW".toList "<red>".toList,
+     .add 1 [.text "y".toList, .level] true false, .copy copyKeepsSharing, .level "INFO".toList "<blue>".toList,
+     .remove 0]).map
+    (fun c => c.handlers.map (fun ih => (ih.2.emitFormat c.ansi "INFO".toList, ih.2.emitFormat c.ansi "NEW".toList))) =
+    .ok [(.ok "y\x1b[34m".toList, .ok "y\x1b[31m".toList)] := by decide +kernel
 
 /-! ## Format specs of arguments are argument text: never markup -/
 
